@@ -36,6 +36,16 @@ const (
 	childTimeout = 150 * time.Second
 )
 
+// AliasOuter / AliasInner: &outer and &outer.Base are the same address with different types.
+type AliasInner struct {
+	V int `json:"v"`
+}
+
+type AliasOuter struct {
+	Base    AliasInner  `json:"base"`
+	Primary *AliasInner `json:"primary"`
+}
+
 // Box is a struct reached through a pointer and holding an interface.
 type Box struct {
 	V any `json:"v"`
@@ -170,6 +180,22 @@ func (c CycleCase) build() (any, error) {
 		cur := nodes[0]
 		for i := 0; i < c.Prefix; i++ {
 			cur = RS{cur}
+		}
+		return cur, nil
+	case "alias":
+		// Acyclic values in which two live pointers of different types hold the
+		// same address (a struct and its first field) and in which one pointer
+		// is reached twice as a sibling: neither is a cycle.
+		if !c.Acyclic {
+			return nil, fmt.Errorf("family alias only builds acyclic values")
+		}
+		x := &AliasOuter{}
+		x.Base.V = 7
+		x.Primary = &x.Base
+		shared := &AliasInner{V: 9}
+		var cur any = []any{x, shared, shared, &x.Base}
+		for i := 0; i < c.Prefix; i++ {
+			cur = []any{cur}
 		}
 		return cur, nil
 	case "RSsub":
@@ -553,6 +579,8 @@ func RunCycle(c CycleCase) error {
 		}
 	} else if c.Family == "RSsub" {
 		rec.Class("cycle:control-slice-of-own-backing-array")
+	} else if c.Family == "alias" {
+		rec.Class("cycle:control-interior-and-shared-pointers")
 	} else {
 		rec.Class("cycle:through-" + c.Family)
 		if c.Len > 1 {
@@ -651,6 +679,9 @@ func enumCycles(e *rt.Env, yield func(CycleCase) bool) {
 				// storage is not a cycle); prefix + nodes stays within the depth limit
 				if pre <= 9990 {
 					if !emit(CycleCase{Family: "RSsub", Prefix: pre, Acyclic: true, Entry: entry}) {
+						return
+					}
+					if !emit(CycleCase{Family: "alias", Prefix: pre, Acyclic: true, Entry: entry}) {
 						return
 					}
 					if !emit(CycleCase{Family: "any", Prefix: pre, PrefixKind: "slice", Nodes: anyNodeKinds, Acyclic: true, Entry: entry}) {
